@@ -262,7 +262,7 @@ func NewBareWorld() *World {
 	cctx, _ := base.CacheContext()
 	w := &World{app: app, cfg: defaultConfig()}
 	w.k = keeper.NewKeeper(app.AppCodec(), app.GetKey(types.StoreKey), app.AccountKeeper, app.BankKeeper,
-		keeper.MockTokenKeeper{}, app.GetSubspace(types.ModuleName), authtypes.FeeCollectorName)
+		harnessTokens{}, app.GetSubspace(types.ModuleName), authtypes.FeeCollectorName)
 	w.ctx = cctx.WithBlockHeight(1)
 	w.DepositAcc = hx(app.AccountKeeper.GetModuleAddress(types.DepositAccName))
 	w.RequestAcc = hx(app.AccountKeeper.GetModuleAddress(types.RequestAccName))
